@@ -532,7 +532,10 @@ func checkC04(c *runCtx) {
 			specs = append(specs, sp{fmt.Sprintf("full %s, %s", role, t.name), soloCfg{Role: role, Locals: 1, Remotes: 2, DiscMs: t.disc, FailMs: t.failMs, Depth: depth}})
 		}
 		specs = append(specs, sp{fmt.Sprintf("lite controlled, %s", t.name), soloCfg{Role: "controlled", Lite: true, Locals: 1, Remotes: 2, DiscMs: t.disc, FailMs: t.failMs, Depth: depth}})
+		// the other public entry: NewAgent(&AgentConfig{...}) with pointer-valued timeouts (nil and an explicit zero differ)
+		specs = append(specs, sp{fmt.Sprintf("lite controlled built from an AgentConfig, %s", t.name), soloCfg{Role: "controlled", Lite: true, Locals: 1, Remotes: 2, DiscMs: t.disc, FailMs: t.failMs, Depth: depth - 1, ViaConfig: true}})
 	}
+	specs = append(specs, sp{"full controlling built from an AgentConfig, disconnected disabled, failed 25s", soloCfg{Role: "controlling", Locals: 1, Remotes: 2, DiscMs: -1, Depth: depth - 1, ViaConfig: true}})
 	if only := os.Getenv("VERIF_ONLY"); only != "" {
 		var f []sp
 		for _, s := range specs {
